@@ -1,9 +1,12 @@
 """Obligations: declaration, symbolic run, discharge, replay of counter-models, cross-check."""
+import gc
 import hashlib
 import importlib
 import inspect
 import json
 import os
+import pickle
+import struct
 import subprocess
 import sys
 import tempfile
@@ -73,6 +76,7 @@ class Ctx(object):
     """What an obligation body sees; the same body runs in symbolic mode and in replay mode."""
 
     thorough = False                # set per run: the thorough tier widens the bounded universes
+    seed = 0                        # VERIF_SEED: generated universes of the thorough tier derive from it
 
     def __init__(self, core, interp):
         self.core = core
@@ -246,11 +250,337 @@ def _json_safe(v):
     return repr(v)
 
 
+def _explore_path(ob, prefix, timeout_ms, excluded, known_hit_ids, xcheck_budget, path_no, replay):
+    """Explores one path (one decision prefix) of the obligation body symbolically, discharges its checks and replays
+    counter-models through `replay`.  Returns a picklable delta that run_obligation merges."""
+    new_work = []
+    stats = dict(queries=0, solver_s=0.0, z3=0, cvc5=0, structural=0)
+    d = dict(work=new_work, funcs={}, stats=stats, undecided=[], crashes=[], refuted=[], known_hits=[], notes=[], skip=False,
+             cut=0, clauses={}, samples=[], crosschecked=0, xcheck_used=0)
+    path = Path(prefix, new_work, stats, timeout_ms)
+    interp = Interp(path)
+    c = Ctx(path, interp)
+    status = 'done'
+    try:
+        ob.fn(c)
+    except PathAbort as e:
+        status = 'cut'
+        if str(e) == 'infeasible' or 'infeasible' in str(e):
+            status = 'infeasible'
+    except (Unsupported, SymbolicLeak) as e:
+        status = 'undecided'
+        d['undecided'].append("path %d: %s: %s" % (path_no, type(e).__name__, e))
+    except ControlSignal as e:
+        status = 'crash'
+        d['crashes'].append("control signal escaped: %r" % (e,))
+    except BaseException as e:
+        import greenlet
+        if isinstance(e, (KeyboardInterrupt,)):
+            raise
+        status = 'crash'
+        d['crashes'].append("exception escaped the obligation body (symbolic mode): %s" %
+                              ''.join(traceback.format_exception(type(e), e, e.__traceback__)[-6:]))
+    finally:
+        interp.cleanup()
+    d['funcs'] = {k: v.as_dict() for k, v in interp.funcs_seen.items()}
+    if status == 'infeasible' and not path.checks:
+        d['skip'] = True
+        return d
+    if status == 'cut':
+        d['cut'] = 1
+    if path.unknown_branches:
+        # sound: an unknown feasibility answer keeps the branch (more paths, never fewer)
+        d['notes'].append("path %d: %d branch feasibility queries returned unknown (branch kept)" % (
+            path_no + 1, path.unknown_branches))
+    occ = {}
+    path_ok = status in ('done', 'cut')
+    for chk in path.checks:
+        k = occ.get(chk.label, 0)
+        occ[chk.label] = k + 1
+        cl = d['clauses'].setdefault(chk.label, dict(paths=0, discharged=0, backend={}))
+        cl['paths'] += 1
+        st, info = _discharge(chk, stats, timeout_ms, excluded)
+        # is an open known finding still reproducible on this path?
+        for fid, reg in chk.regions:
+            if fid in excluded:
+                m = _region_hit(chk, fid, reg, stats, timeout_ms)
+                if m is not None and fid not in known_hit_ids and fid not in [h['finding'] for h in d['known_hits']]:
+                    vals = model_values(m, chk.vars)
+                    r2, t2, err2, hit2 = replay(ob, vals, chk.choices)
+                    confirmed = any(lab == chk.label and not ok for lab, ok, _ in r2)
+                    d['known_hits'].append(dict(finding=fid, clause=chk.label, values=_json_safe(vals),
+                                                  native_confirmed=confirmed, replay_error=err2))
+        if st == 'discharged':
+            cl['discharged'] += 1
+            cl['backend'][info] = cl['backend'].get(info, 0) + 1
+            if len(d['samples']) < 3:
+                d['samples'].append(dict(obligation=ob.id, clause=chk.label,
+                                           path_condition_conjuncts=len(chk.pc),
+                                           vc="pc => " + _short(chk.cond), backend=info))
+        elif st == 'refuted':
+            path_ok = False
+            # replay the counter-model on the real code; if it does not fail there, ask for other models
+            # (callee models may be over-approximate: only a replayed failure counts as a violation)
+            tried = []
+            confirmed_entry = None
+            last = None
+            model = info
+            blocker = []
+            for attempt in range(6):
+                vals = model_values(model, chk.vars)
+                r2, t2, err2, hit2 = replay(ob, vals, chk.choices)
+                labs = [(lab, ok, d) for lab, ok, d in r2 if lab == chk.label]
+                native_fail = [x for x in labs if not x[1]]
+                entry = dict(clause=chk.label, values=_json_safe(vals), choices=_json_safe(chk.choices),
+                             model=str(model)[:2000], detail=_json_safe(native_fail[0][2] if native_fail else chk.detail),
+                             native_results=_json_safe(r2[:20]), native_trace=_json_safe(t2[:40]),
+                             replay_error=err2, trace=_json_safe(chk.trace[:40]))
+                last = (entry, labs, err2, vals)
+                if native_fail:
+                    entry['confirmed'] = True
+                    confirmed_entry = entry
+                    break
+                tried.append(vals)
+                # block this assignment of the declared inputs and ask again
+                lits = []
+                for nm, sv in chk.vars.items():
+                    try:
+                        lits.append(sv.t != model.eval(sv.t, model_completion=True))
+                    except z3.Z3Exception:
+                        pass
+                if not lits:
+                    break
+                blocker.append(z3.Or(*lits))
+                s2 = z3.Solver()
+                s2.set('timeout', timeout_ms)
+                for cnd in chk.pc:
+                    s2.add(cnd)
+                for fid, reg in chk.regions:
+                    if fid in excluded:
+                        s2.add(z3.Not(reg))
+                s2.add(z3.Not(chk.cond))
+                for b in blocker:
+                    s2.add(b)
+                if s2.check() != z3.sat:
+                    break
+                model = s2.model()
+            is_loop_vc = chk.label.startswith('loop[')
+            entry, labs, err2, vals = last
+            if confirmed_entry is not None:
+                d['refuted'].append(confirmed_entry)
+            elif ob.replay == 'best_effort':
+                # the interpreted run *is* an execution of the real code under a schedule the interpreter chose; the native
+                # replay (real threads) is a second witness that may not hit the same schedule
+                entry['confirmed'] = False
+                entry['note'] = 'failed under the interpreter\'s schedule on the real objects; the native two-thread replay did not reproduce it'
+                d['refuted'].append(entry)
+            elif not ob.replay:
+                entry['confirmed'] = False
+                entry['note'] = 'obligation observes the run through callee models; no native replay exists'
+                d['refuted'].append(entry)
+            elif is_loop_vc:
+                d['undecided'].append("%s: loop annotation not established/inductive for this code (counter-model "
+                                        "is not a failing input): %s" % (chk.label, _json_safe(vals)))
+            elif path.overapprox:
+                d['undecided'].append("%s: %d counter-models of the VC do not fail on the real code; the path uses "
+                                        "an over-approximate callee model (%s): %s" % (
+                                            chk.label, len(tried), '; '.join(sorted(set(path.overapprox))),
+                                            _json_safe(tried[:2])))
+            elif err2 is not None and not labs:
+                d['crashes'].append("replay of counter-model for %s failed: %s" % (chk.label, err2))
+            else:
+                d['crashes'].append(
+                    "counter-model for %s does not fail natively: values=%r choices=%r native=%r "
+                    "(encoding disagrees with CPython)" % (chk.label, vals, chk.choices, labs))
+        else:
+            path_ok = False
+            d['undecided'].append("%s: %s" % (chk.label, info))
+    # CPython cross-check on a model of this path's condition
+    if path_ok and xcheck_budget > 0 and status == 'done' and path.checks and ob.replay and \
+            not _needs_long_string(path.pc):
+        d['xcheck_used'] += 1
+        s = z3.Solver()
+        s.set('timeout', timeout_ms)
+        s.set('rlimit', 1500000)      # witnesses that are expensive to build (long strings) are skipped
+        for cnd in path.pc:
+            s.add(cnd)
+        for fid, reg in path.regions:
+            s.add(z3.Not(reg))
+        if s.check() == z3.sat:
+            vals = model_values(s.model(), path.vars)
+            r2, t2, err2, hit2 = replay(ob, vals, path.choices)
+            d['crosschecked'] += 1
+            bad = [(lab, d) for lab, ok, d in r2 if not ok]
+            if err2 is not None:
+                d['crashes'].append("cross-check: native run of a feasible path failed: %s; values=%r" % (
+                    err2, vals))
+            elif bad and not hit2:
+                # the real code fails the contract on a concrete input: a violation whatever the symbolic verdict was
+                # (typically the clause was proved under a loop annotation whose own VC is not discharged)
+                for lab, d in bad:
+                    d['refuted'].append(dict(clause=lab, values=_json_safe(vals), choices=_json_safe(path.choices),
+                                               model='', detail=_json_safe(d), native_results=_json_safe(r2[:20]),
+                                               native_trace=_json_safe(t2[:40]), replay_error=None, trace=[],
+                                               confirmed=True, note='found by the CPython cross-check of a path'))
+    return d
+
+
+def _warm(info):
+    """State-independent caches only: modules the path imported lazily are imported here too, the sources of the functions
+    it interpreted are parsed here too, so that later children inherit them instead of redoing the work."""
+    if not info:
+        return
+    for name in info.get('modules', ()):
+        if name not in sys.modules and not name.startswith('contracts'):
+            try:
+                importlib.import_module(name)
+            except BaseException:
+                pass
+    bare = Interp.__new__(Interp)
+    for mod, qual in info.get('funcs', ()):
+        try:
+            o = sys.modules.get(mod)
+            for part in qual.split('.'):
+                o = o.__dict__[part] if isinstance(o, type) and part in o.__dict__ else getattr(o, part)
+            o = getattr(o, '__func__', o)
+            if hasattr(o, 'fget'):
+                o = o.fget
+            if hasattr(o, '__code__') and o.__code__ not in Interp._src_cache:
+                Interp._source_of(bare, o)
+        except BaseException:
+            pass
+    del Interp._src_missed[:]
+
+
+def _can_isolate():
+    return hasattr(os, 'fork') and os.environ.get('PYVC_ISOLATE', '1') != '0'
+
+
+def _send(f, obj):
+    data = pickle.dumps(obj, protocol=pickle.HIGHEST_PROTOCOL)
+    f.write(struct.pack('>Q', len(data)))
+    f.write(data)
+    f.flush()
+
+
+def _recv(f):
+    head = f.read(8)
+    if len(head) < 8:
+        return None
+    n, = struct.unpack('>Q', head)
+    data = f.read(n)
+    if len(data) < n:
+        return None
+    return pickle.loads(data)
+
+
+def _isolated_replay(ob, values, choices):
+    """replay_concrete in a child of this (pristine) process: the native run starts from the state the obligation's module
+    was loaded in, whatever earlier paths did to classes, caches and registries."""
+    r, w = os.pipe()
+    sys.stdout.flush()
+    sys.stderr.flush()
+    gc.freeze()
+    pid = os.fork()
+    if pid == 0:
+        try:
+            os.close(r)
+            f = os.fdopen(w, 'wb')
+            try:
+                r2, t2, err2, hit2 = replay_concrete(ob, values, choices)
+                out = (_json_safe(list(r2)), _json_safe(list(t2)), err2, list(hit2))
+                try:
+                    pickle.dumps(out)
+                except Exception:
+                    out = (_json_safe(list(r2)), [], err2, [str(h) for h in hit2])
+            except BaseException as e:
+                out = ([], [], "replay process failed: %r" % (e,), [])
+            _send(f, out)
+        finally:
+            os._exit(0)
+    os.close(w)
+    f = os.fdopen(r, 'rb')
+    out = _recv(f)
+    f.close()
+    _, st = os.waitpid(pid, 0)
+    if out is None:
+        return [], [], "replay process died (wait status %d)" % st, []
+    r2, t2, err2, hit2 = out
+    return [tuple(x) for x in r2], [tuple(x) if isinstance(x, list) else x for x in t2], err2, hit2
+
+
+def _isolated_path(ob, prefix, timeout_ms, excluded, known_hit_ids, xcheck_budget, path_no):
+    """One path in a forked child, so that nothing the path does to process-wide state (class attributes, module-level
+    caches and registries of the code under contract) is seen by the next path.  This process never runs a path itself;
+    native replays the child asks for are run in further children of this process (see _isolated_replay)."""
+    p2c_r, p2c_w = os.pipe()
+    c2p_r, c2p_w = os.pipe()
+    sys.stdout.flush()
+    sys.stderr.flush()
+    gc.freeze()            # what exists now is not traversed (hence not copied on write) by a child's collector
+    pid = os.fork()
+    if pid == 0:
+        try:
+            os.close(p2c_w)
+            os.close(c2p_r)
+            fin, fout = os.fdopen(p2c_r, 'rb'), os.fdopen(c2p_w, 'wb')
+
+            def replay(ob_, values, choices):
+                _send(fout, ('replay', values, choices))
+                out = _recv(fin)
+                if out is None:
+                    return [], [], "replay request got no answer", []
+                return out
+            try:
+                mods_before = set(sys.modules)
+                del Interp._src_missed[:]
+                d = _explore_path(ob, prefix, timeout_ms, excluded, known_hit_ids, xcheck_budget, path_no, replay)
+                d['warm'] = dict(modules=sorted(set(sys.modules) - mods_before),
+                                 funcs=[x for x in Interp._src_missed if x[0] and x[1] and '<' not in x[1]])
+                _send(fout, ('done', d))
+            except BaseException as e:
+                _send(fout, ('fatal', ''.join(traceback.format_exception(type(e), e, e.__traceback__)[-8:])))
+        finally:
+            os._exit(0)
+    os.close(p2c_r)
+    os.close(c2p_w)
+    fin, fout = os.fdopen(c2p_r, 'rb'), os.fdopen(p2c_w, 'wb')
+    result = None
+    while True:
+        msg = _recv(fin)
+        if msg is None:
+            break
+        if msg[0] == 'replay':
+            try:
+                ans = _isolated_replay(ob, msg[1], msg[2])
+            except BaseException as e:
+                ans = ([], [], "replay could not be started: %r" % (e,), [])
+            _send(fout, ans)
+        elif msg[0] == 'done':
+            result = msg[1]
+            break
+        else:
+            result = dict(work=[], funcs={}, stats={}, undecided=[], crashes=["path process failed: %s" % msg[1]], refuted=[],
+                          known_hits=[], notes=[], skip=False, cut=0, clauses={}, samples=[], crosschecked=0, xcheck_used=0)
+            break
+    fin.close()
+    fout.close()
+    _, st = os.waitpid(pid, 0)
+    if result is not None:
+        _warm(result.pop('warm', None))
+    if result is None:
+        result = dict(work=[], funcs={}, stats={}, undecided=[], crashes=["path process died (wait status %d) on prefix %r" % (
+            st, prefix)], refuted=[], known_hits=[], notes=[], skip=False, cut=0, clauses={}, samples=[], crosschecked=0,
+            xcheck_used=0)
+    return result
+
+
 def run_obligation(ob_id, opts):
     """Runs one obligation in the current process; returns a JSON-able result dict."""
     ob = REGISTRY[ob_id]
     timeout_ms = opts.get('timeout_ms', 10000)
     Ctx.thorough = opts.get('tier') == 'thorough'
+    Ctx.seed = opts.get('seed', 0)
     known = opts.get('known', {})       # finding id -> entry (open findings only)
     seed = opts.get('seed', 0)
     z3.set_param('smt.random_seed', seed % (2 ** 31))
@@ -269,182 +599,51 @@ def run_obligation(ob_id, opts):
     funcs = {}
     xcheck_budget = opts.get('xcheck_paths', 6)
     excluded = set(known.keys())
+    isolate = _can_isolate()
+    res['isolated_paths'] = isolate
     while work:
         if res['paths'] >= ob.max_paths:
             res['undecided'].append("path budget %d exhausted" % ob.max_paths)
             break
         prefix = work.pop()
-        path = Path(prefix, work, stats, timeout_ms)
-        interp = Interp(path)
-        c = Ctx(path, interp)
-        status = 'done'
-        try:
-            ob.fn(c)
-        except PathAbort as e:
-            status = 'cut'
-            if str(e) == 'infeasible' or 'infeasible' in str(e):
-                status = 'infeasible'
-        except (Unsupported, SymbolicLeak) as e:
-            status = 'undecided'
-            res['undecided'].append("path %d: %s: %s" % (res['paths'], type(e).__name__, e))
-        except ControlSignal as e:
-            status = 'crash'
-            res['crashes'].append("control signal escaped: %r" % (e,))
-        except BaseException as e:
-            import greenlet
-            if isinstance(e, (KeyboardInterrupt,)):
-                raise
-            status = 'crash'
-            res['crashes'].append("exception escaped the obligation body (symbolic mode): %s" %
-                                  ''.join(traceback.format_exception(type(e), e, e.__traceback__)[-6:]))
-        finally:
-            interp.cleanup()
-        funcs.update(interp.funcs_seen)
-        if status == 'infeasible' and not path.checks:
+        args = (ob, prefix, timeout_ms, excluded, [h['finding'] for h in res['known_hits']], xcheck_budget, res['paths'])
+        d = _isolated_path(*args) if isolate else _explore_path(*args, replay=replay_concrete)
+        work.extend(d['work'])
+        funcs.update(d['funcs'])
+        for k in ('queries', 'solver_s', 'z3', 'cvc5', 'structural'):
+            stats[k] = stats.get(k, 0) + d['stats'].get(k, 0)
+        for k in ('undecided', 'crashes', 'refuted', 'known_hits'):
+            res[k].extend(d[k])
+        if d['notes']:
+            res.setdefault('notes', []).extend(d['notes'])
+        if d['skip']:
             continue
         res['paths'] += 1
-        if status == 'cut':
-            res['cut_paths'] += 1
-        if path.unknown_branches:
-            # sound: an unknown feasibility answer keeps the branch (more paths, never fewer)
-            res.setdefault('notes', []).append("path %d: %d branch feasibility queries returned unknown (branch kept)" % (
-                res['paths'], path.unknown_branches))
-        occ = {}
-        path_ok = status in ('done', 'cut')
-        for chk in path.checks:
-            k = occ.get(chk.label, 0)
-            occ[chk.label] = k + 1
-            cl = res['clauses'].setdefault(chk.label, dict(paths=0, discharged=0, backend={}))
-            cl['paths'] += 1
-            st, info = _discharge(chk, stats, timeout_ms, excluded)
-            # is an open known finding still reproducible on this path?
-            for fid, reg in chk.regions:
-                if fid in excluded:
-                    m = _region_hit(chk, fid, reg, stats, timeout_ms)
-                    if m is not None and fid not in [h['finding'] for h in res['known_hits']]:
-                        vals = model_values(m, chk.vars)
-                        r2, t2, err2, hit2 = replay_concrete(ob, vals, chk.choices)
-                        confirmed = any(lab == chk.label and not ok for lab, ok, _ in r2)
-                        res['known_hits'].append(dict(finding=fid, clause=chk.label, values=_json_safe(vals),
-                                                      native_confirmed=confirmed, replay_error=err2))
-            if st == 'discharged':
-                cl['discharged'] += 1
-                cl['backend'][info] = cl['backend'].get(info, 0) + 1
-                if len(res['samples']) < 3:
-                    res['samples'].append(dict(obligation=ob.id, clause=chk.label,
-                                               path_condition_conjuncts=len(chk.pc),
-                                               vc="pc => " + _short(chk.cond), backend=info))
-            elif st == 'refuted':
-                path_ok = False
-                # replay the counter-model on the real code; if it does not fail there, ask for other models
-                # (callee models may be over-approximate: only a replayed failure counts as a violation)
-                tried = []
-                confirmed_entry = None
-                last = None
-                model = info
-                blocker = []
-                for attempt in range(6):
-                    vals = model_values(model, chk.vars)
-                    r2, t2, err2, hit2 = replay_concrete(ob, vals, chk.choices)
-                    labs = [(lab, ok, d) for lab, ok, d in r2 if lab == chk.label]
-                    native_fail = [x for x in labs if not x[1]]
-                    entry = dict(clause=chk.label, values=_json_safe(vals), choices=_json_safe(chk.choices),
-                                 model=str(model)[:2000], detail=_json_safe(native_fail[0][2] if native_fail else chk.detail),
-                                 native_results=_json_safe(r2[:20]), native_trace=_json_safe(t2[:40]),
-                                 replay_error=err2, trace=_json_safe(chk.trace[:40]))
-                    last = (entry, labs, err2, vals)
-                    if native_fail:
-                        entry['confirmed'] = True
-                        confirmed_entry = entry
-                        break
-                    tried.append(vals)
-                    # block this assignment of the declared inputs and ask again
-                    lits = []
-                    for nm, sv in chk.vars.items():
-                        try:
-                            lits.append(sv.t != model.eval(sv.t, model_completion=True))
-                        except z3.Z3Exception:
-                            pass
-                    if not lits:
-                        break
-                    blocker.append(z3.Or(*lits))
-                    s2 = z3.Solver()
-                    s2.set('timeout', timeout_ms)
-                    for cnd in chk.pc:
-                        s2.add(cnd)
-                    for fid, reg in chk.regions:
-                        if fid in excluded:
-                            s2.add(z3.Not(reg))
-                    s2.add(z3.Not(chk.cond))
-                    for b in blocker:
-                        s2.add(b)
-                    if s2.check() != z3.sat:
-                        break
-                    model = s2.model()
-                is_loop_vc = chk.label.startswith('loop[')
-                entry, labs, err2, vals = last
-                if confirmed_entry is not None:
-                    res['refuted'].append(confirmed_entry)
-                elif not ob.replay:
-                    entry['confirmed'] = False
-                    entry['note'] = 'obligation observes the run through callee models; no native replay exists'
-                    res['refuted'].append(entry)
-                elif is_loop_vc:
-                    res['undecided'].append("%s: loop annotation not established/inductive for this code (counter-model "
-                                            "is not a failing input): %s" % (chk.label, _json_safe(vals)))
-                elif path.overapprox:
-                    res['undecided'].append("%s: %d counter-models of the VC do not fail on the real code; the path uses "
-                                            "an over-approximate callee model (%s): %s" % (
-                                                chk.label, len(tried), '; '.join(sorted(set(path.overapprox))),
-                                                _json_safe(tried[:2])))
-                elif err2 is not None and not labs:
-                    res['crashes'].append("replay of counter-model for %s failed: %s" % (chk.label, err2))
-                else:
-                    res['crashes'].append(
-                        "counter-model for %s does not fail natively: values=%r choices=%r native=%r "
-                        "(encoding disagrees with CPython)" % (chk.label, vals, chk.choices, labs))
-            else:
-                path_ok = False
-                res['undecided'].append("%s: %s" % (chk.label, info))
-        # CPython cross-check on a model of this path's condition
-        if path_ok and xcheck_budget > 0 and status == 'done' and path.checks and ob.replay and \
-                not _needs_long_string(path.pc):
-            xcheck_budget -= 1
-            s = z3.Solver()
-            s.set('timeout', timeout_ms)
-            s.set('rlimit', 1500000)      # witnesses that are expensive to build (long strings) are skipped
-            for cnd in path.pc:
-                s.add(cnd)
-            for fid, reg in path.regions:
-                s.add(z3.Not(reg))
-            if s.check() == z3.sat:
-                vals = model_values(s.model(), path.vars)
-                r2, t2, err2, hit2 = replay_concrete(ob, vals, path.choices)
-                res['crosschecked'] += 1
-                bad = [(lab, d) for lab, ok, d in r2 if not ok]
-                if err2 is not None:
-                    res['crashes'].append("cross-check: native run of a feasible path failed: %s; values=%r" % (
-                        err2, vals))
-                elif bad and not hit2:
-                    # the real code fails the contract on a concrete input: a violation whatever the symbolic verdict was
-                    # (typically the clause was proved under a loop annotation whose own VC is not discharged)
-                    for lab, d in bad:
-                        res['refuted'].append(dict(clause=lab, values=_json_safe(vals), choices=_json_safe(path.choices),
-                                                   model='', detail=_json_safe(d), native_results=_json_safe(r2[:20]),
-                                                   native_trace=_json_safe(t2[:40]), replay_error=None, trace=[],
-                                                   confirmed=True, note='found by the CPython cross-check of a path'))
+        res['cut_paths'] += d['cut']
+        for lab, cl in d['clauses'].items():
+            t = res['clauses'].setdefault(lab, dict(paths=0, discharged=0, backend={}))
+            t['paths'] += cl['paths']
+            t['discharged'] += cl['discharged']
+            for bk, n in cl['backend'].items():
+                t['backend'][bk] = t['backend'].get(bk, 0) + n
+        for smp in d['samples']:
+            if len(res['samples']) < 3:
+                res['samples'].append(smp)
+        res['crosschecked'] += d['crosschecked']
+        xcheck_budget -= d['xcheck_used']
+    replay_final = _isolated_replay if isolate else replay_concrete
     # refutation search (DESIGN 1): when something is left undecided and nothing is refuted, run the obligation body
     # natively once with default inputs -- bodies whose replay mode enumerates small inputs thereby search for a
     # failing concrete input; a failure found this way is a replayed refutation, nothing found leaves it undecided.
     if (res['undecided'] or res['crashes']) and not any(v.get('confirmed') for v in res['refuted']) and ob.replay:
-        r2, t2, err2, hit2 = replay_concrete(ob, {}, [])
+        r2, t2, err2, hit2 = replay_final(ob, {}, [])
         for lab, ok, d in r2:
             if not ok:
                 res['refuted'].append(dict(clause=lab, values={}, choices=[], model='', detail=_json_safe(d),
                                            native_results=_json_safe(r2[:20]), native_trace=[], replay_error=err2,
                                            trace=[], confirmed=True,
                                            note='found by the native refutation search (default/enumerated inputs)'))
-    res['functions'] = {k: v.as_dict() for k, v in funcs.items()}
+    res['functions'] = funcs
     res['stats'] = stats
     res['wall_s'] = time.time() - t_start
     if res['paths'] == 0 and not res['crashes']:
